@@ -38,13 +38,15 @@ _so, _se = sys.stdout, sys.stderr
 sys.stdout, sys.stderr = _o, _e
 import warnings
 warnings.simplefilter('always')
+_amb0 = _ambient()
 _exc = None
 try:
 %s
 except BaseException as _x:
     _exc = type(_x).__name__ + ': ' + str(_x)[:200]
+_amb1 = _ambient()
 sys.stdout, sys.stderr = _so, _se
-_res = {'exc': _exc, 'out': _o.getvalue(), 'err': _e.getvalue()}
+_res = {'exc': _exc, 'out': _o.getvalue(), 'err': _e.getvalue(), 'ambient': sorted(k for k in _amb0 if _amb0[k] != _amb1[k])}
 try:
     import bs4, soupsieve
     _s = bs4.BeautifulSoup(%r, 'html.parser')
@@ -70,7 +72,8 @@ def _run_child(args):
     stmts, logged, repo = args[:3]
     flags = args[3] if len(args) > 3 else []
     body = '\n'.join('    ' + s for s in stmts)
-    prog = (imports.LOGGER if logged else '') + CHILD % (body, MARKUP, SELS, SELS, NSDOC, NSMAP, NSSELS, NSMAP, NSSELS, "_res['events'] = _ev" if logged else '')
+    prog = (imports.LOGGER if logged else imports.AMBIENT) + CHILD % (body, MARKUP, SELS, SELS, NSDOC, NSMAP, NSSELS, NSMAP, NSSELS,
+                                                                          "_res['events'] = _ev; _res['blame'] = {k: sorted(set(v)) for k, v in _blame.items()}" if logged else '')
     env = dict(os.environ)
     env['PYTHONPATH'] = repo
     env.pop('PYTHONWARNINGS', None)
@@ -143,6 +146,9 @@ def main(tier):
             bad.append('wrote to stderr / warned: %r' % (c.get('err') or c.get('raw_stderr'))[:300])
         if c.get('after'):
             bad.append('select after import failed: %s' % c['after'])
+        blamed = {m: k for m, k in (lg.get('blame') or {}).items() if m.split('.')[0] == 'soupsieve'}
+        if blamed:
+            bad.append('executing %s changed process-wide state: %s' % (', '.join(sorted(blamed)), ', '.join(sorted({x for k in blamed.values() for x in k}))))
         if 'r1' in c and c.get('r1') != c.get('r2'):
             bad.append('BeautifulSoup.select and soupsieve.select differ: %r vs %r' % (c['r1'], c['r2']))
         if 'r1' in c:
